@@ -21,6 +21,7 @@ def register(PROPS):
                  'two RRULEs), is parsed by the real parser and asked for 300 occurrences; the seven fillers are also called directly like '
                  'refill() does on a 128-instant buffer that ends at an inaccessible page.  Checked: no sanitizer report or fault, fillers return '
                  '<= 64, every call answers within the CPU budget, a terminated rule stops yielding, a rule whose RFC set is empty yields nothing.  '
+                 '(d) Occurrences on the very second at which a zone changes its UTC offset (tzswitch): for every zone and year of the bound the events DTSTART;TZID=zone:<year>0101T000000 with FREQ=HOURLY;COUNT=8790 and FREQ=MINUTELY;INTERVAL=30;COUNT=17580 and DTSTART at each of the 24 full hours of January 1st with FREQ=DAILY;COUNT=366 are followed to their end (on the stream\'s clock they pass through every transition second of the year that lies on a full or half hour UTC), and for 30 zones echs_tzob_offs and echs_instant_loc are called at T-1, T, T+1 and echs_instant_utc at the wall-clock images of these seconds under the offset before and after, for every transition T of 1902..2037 of the zone\'s 32-bit table (read by the driver\'s own TZif reader).  Checked: every call answers within the CPU budget, no sanitizer report, COUNT is not exceeded.  '
                  '(c) Events with several sources at once (multirule): DTSTART 2024-03-01T10:00Z with every ordered selection of 0..3 finite rules '
                  'of a menu as RRULEs, four RDATE variants (none, one date, three unsorted dates, two lines), every ordered selection of 0..3 '
                  'finite rules of a second menu as EXRULEs and three EXDATE variants (none, one date, two lines), each freshly parsed event run '
@@ -40,18 +41,18 @@ def register(PROPS):
         'rule': 'case = one event text (or one direct filler sequence); a supervised unit is (rule, extension, DTSTART) resp. (hostile rule, '
                 'DTSTART) with its terminations/embeddings; all texts distinct; non-trivial = the unterminated stream / filler sequence '
                 'delivered >= 2 instants; multirule: case = one event with all its scripts, an evaluation = one script on a freshly parsed '
-                'event, non-trivial = the event has >= 2 occurrences',
+                'event, non-trivial = the event has >= 2 occurrences; tzswitch: case = (zone, year) with its 26 events resp. a zone with its direct calls, an evaluation = one event followed to its end resp. one direct call, non-trivial = the zone has a transition on the half-hour grid in that year resp. a transition in 1902..2037',
         'bound': {
             'quick': 'grammar: BY-part subsets <= 1, INTERVAL {1,2}, 4 anchors (+ derived synchronised DTSTART), extensions {none, SHIFT=1B, SHIFT=-40, '
                      'BYEASTER=-2, SCALE=HIJRI.IA, TZID=Europe/Berlin}, terminations {none, COUNT 65, UNTIL on 4th}; hostile: reduced INTERVAL '
                      'list {2,7,13,60,1000,2^31-1,2^32,24,168,1440,86400}, product factorisations with a factor 1, 2 DTSTARTs; fillers: hostile '
                      'rules + grammar rules of size <= 1; multirule: RRULE menu of 4 (YEARLY COUNT 3, WEEKLY UNTIL, DAILY;INTERVAL=3 COUNT 70, '
-                     'DAILY COUNT 1), EXRULE menu of 3, ordered selections of <= 3 each (41 x 16) x 4 RDATE x 3 EXDATE variants less those without RRULE and RDATE = 7824 events x 11 scripts',
+                     'DAILY COUNT 1), EXRULE menu of 3, ordered selections of <= 3 each (41 x 16) x 4 RDATE x 3 EXDATE variants less those without RRULE and RDATE = 7824 events x 11 scripts; tzswitch: streams in 7 zones (Europe/Berlin, America/New_York, Australia/Sydney, Europe/London, America/Sao_Paulo, Australia/Lord_Howe, Pacific/Auckland) x 2010..2036 (189 zone-years, 343 switch seconds on the grid, 6.6 million occurrences), direct calls in 30 zones (4511 switch seconds x 12 calls)',
             'thorough': 'grammar (ASan): subsets <= 1, INTERVAL {1,2,7}, 6 anchors, every single extension but the table calendars; grammar-pairs '
                         '(plain build, clauses hang / exhausted-yields / empty-yields only): subsets <= 2, INTERVAL {1,2}, 4 anchors, reduced '
                         'extension menu; hostile: full lists, 3 DTSTARTs, COUNT=130 in every embedding; fillers: hostile rules + grammar rules of '
                         'size <= 2, 6 anchors; multirule: RRULE menu of 6 (+ MONTHLY COUNT 4, HOURLY;INTERVAL=5 COUNT 4), EXRULE menu of 4, '
-                        'ordered selections of <= 3 each (157 x 41) x 4 x 3 less those without RRULE and RDATE = 77121 events x 11 scripts',
+                        'ordered selections of <= 3 each (157 x 41) x 4 x 3 less those without RRULE and RDATE = 77121 events x 11 scripts; tzswitch: streams in all 30 zones x 1971..2036 (1980 zone-years, 3231 switch seconds on the grid, 69.6 million occurrences), direct calls as in quick',
         },
         'drivers': [
             D('c09_hostile', H + ['hquick=1', 'b2=2'], H, label='hostile', variant='asan'),
@@ -61,12 +62,14 @@ def register(PROPS):
               tiers=('thorough',)),
             D('c09_hostile', F + ['hquick=1', 'maxparts=1', 'intervals=1,2', 'anchors=4'],
               F + ['maxparts=2', 'intervals=1,2,7', 'anchors=6', '--deadline', '100'], label='fillers', variant='asan'),
+            D('c09_hostile', ['mode=tzswitch', 'b2=2', '--case-timeout', '60'], ['mode=tzswitch', 'zones=all', 'y0=1971', '--case-timeout', '60'], label='tz-switch-second', variant='asan'),
             D('c09_multirule', MQ, MT, label='multirule', variant='asan'),
             D('c09_multirule', MQ, MT, label='multirule-guarded-heap'),
         ],
         'assumptions': ['calendar years up to 2099: a stream is asked no further once it has delivered an occurrence after 2099 (the code counts leap '
                         'years as y % 4 and its weekday bookkeeping drifts after 2100-02-28)',
                         'TZID cases that may look up the zone\'s last 32-bit transition are left out (C07 finding)',
+                        'tzswitch: only termination and memory safety are judged there (what the conversions answer is C07\'s subject); the transition seconds come from the version-1 block of the installed zone file as tzfile(5) describes it (harness/ref/tzifmini.h); streams stay within 1971..2037, before the zone\'s last 32-bit transition; after six stream hangs in a shard its remaining (zone, year) cases are left out and counted (left_out_after_repeated_hangs), on a tree without a hang nothing is left out',
                         'clause exhausted-yields / empty-yields only for plain rules of the C01 grammar (synchronised DTSTART resp. reference set '
                         'empty up to 2099 / 9 years / 400 days / 10 days for FREQ >= DAILY / HOURLY / MINUTELY / SECONDLY); DTSTART itself is tolerated '
                         'as an answer of an empty set',
